@@ -30,7 +30,7 @@ def gen_graph_history(rng, B, thorough):
         elif r < 0.88 and live:
             i = rng.choice(live); ops.append((2, i, 0, 0)); al.remove(i); edges = {e for e in edges if i not in e}
         elif r < 0.97 and len(al.live) < B - 2:
-            ops.append((0, 200 + len(ops), 0, 0)); al.add()
+            ops.append((rng.choice([0, 0, 1]), 200 + len(ops), 0, 0)); al.add()      # also a root added AFTER removals
         elif r > 0.995:
             ops.append((6, 0, 0, 0)); al.clear(); edges = set()
     return ops
